@@ -14,17 +14,20 @@ Direct judgement: real bash against the property text on
 import itertools
 import time
 
-from .. import build, impl, report, t2, t2gen, gen
+from .. import build, impl, model, report, sexp, t2
 
 UNIVERSE = ['a', 'ab', 'abc', 'abcd', 'b', 'ba', 'abd']
 KNOWN_CLASS = 'c12_shorter_value_not_recognised'
 
 MANIFEST = dict(
-    text=('Theorems C12_values_recognised / C12_partial_offers (Props/C12.v): for every table of a within-word automaton in which, '
-          'after the literal prefix, exactly the (duplicate-free, glob-free) values vs are enabled, the repaired matcher of the bash '
-          'skeleton (Model/BashSem.v, variant Fixed) recognises pre++v for every v in vs whatever other (longer, overlapping) values '
-          'exist, and for a partially typed value p offers exactly [pre++v | v in vs, p prefix of v] in table order; '
-          'C12_refuted_shorter_value shows by computation that the loop pinned in /repo rejects `--opt=a` for --opt=(a|abc|abcd). '
+    text=('Theorems of Props/C12.v on Model/BashSem.v (an interpreter of the emitted bash skeleton over the emitted tables): '
+          'C12_values_recognised / C12_partial_stops / C12_partial_offers -- on ANY within-word tables with glob-free literals in '
+          'decreasing length, the repaired matcher (variant Fixed: stop test only when completing and only for literals with a transition) '
+          'consumes a fully typed value exactly and ends matched, stays in front of a partially typed value and offers exactly the level-0 '
+          'literals extending the typed word; C12_chain_value_recognised / C12_chain_partial_offers -- end to end (run_from: rc, COMPREPLY, '
+          'log) on the tables the pipeline emits for cmd pre(v1|..|vn) next; with arbitrary prefix chains (Model/ChainTables.v, compared with '
+          'Rust\'s TABLES for every grammar of the family); C12_refuted_shorter_value -- the loop pinned in /repo returns 1 for `--opt=a` '
+          'with --opt=(a|abc|abcd) (known finding, repair in patches/). '
           'BashSem is tied to the real script by T2 (real bash 5.2 vs extracted model on Rust\'s own tables: COMPREPLY, return code and '
           'probe log compared exactly), its bash primitives (glob matching, printf %q, read/echo filtering, sort, associative-array key '
           'order) are compared with real bash on generated inputs, the skeleton templates are hash-locked (T3), and real bash is judged '
@@ -132,6 +135,53 @@ def random_chains(ctx, n):
     return fams
 
 
+def strip_tables(sx):
+    """TABLES payload without the `needs` switches and the shape hashes (not part of Model/Dfa.v's alltables)"""
+    if isinstance(sx, list):
+        return [strip_tables(x) for x in sx if not (isinstance(x, list) and x and x[0] in ('needs', 'shapehash'))]
+    return sx
+
+
+def chain_tables_tie(fams, dumps, res):
+    """Model/ChainTables.v (what the end-to-end theorems of Props/C12.v are about) against Rust's TABLES, with Rust's
+    literal order as the oracle; and the theorems' hypothesis on that order (decreasing length)."""
+    reqs, idx = [], []
+    for i, f in enumerate(fams):
+        if f.label not in ('exhaustive', 'random'):
+            continue
+        st = dumps[i]['bash']
+        if 'TABLES' not in st:
+            continue
+        tsx = sexp.parse(st['TABLES'])
+        subs = [x for x in tsx if isinstance(x, list) and x and x[0] == 'subwords'][0]
+        if len(subs) != 2:
+            res.violations.append(report.Violation('C12: the family grammar does not have exactly one within-word automaton',
+                                                   dict(kind='generator', grammar=f.text, tables=st['TABLES'][:1500])))
+            continue
+        lits = [str(l[1]) for l in [x for x in subs[1][2] if isinstance(x, list) and x and x[0] == 'literals'][0][1:]]
+        if f.pre not in lits:
+            continue
+        lens = [len(l) for l in lits]
+        if any(a < b for a, b in zip(lens, lens[1:])):
+            res.violations.append(report.Violation(
+                'hypothesis of the C12 theorems broken: the literal array of the within-word automaton is not in decreasing length: %s' % lits,
+                dict(kind='theorem-hypothesis', grammar=f.text, literals=lits), found_input=False))
+        reqs.append('chaintables (%s) %d %s' % (' '.join(sexp.quote(l) for l in lits), lits.index(f.pre), sexp.quote(f.tail)))
+        idx.append((i, tsx))
+    outs = model.run(reqs)
+    agree = 0
+    for (i, tsx), o in zip(idx, outs):
+        if strip_tables(tsx) == strip_tables(sexp.parse(o)):
+            agree += 1
+        else:
+            res.violations.append(report.Violation(
+                'tie broken: Model/ChainTables.v is not what the pipeline emits for %s' % fams[i].text.strip(),
+                dict(kind='tie-chain-tables', grammar=fams[i].text, rust=dumps[i]['bash']['TABLES'][:3000], model=o[:3000]),
+                found_input=False))
+    res.extra['chain_tables_compared'] = len(idx)
+    res.extra['chain_tables_agree'] = agree
+
+
 def classify(variant, fam, kind, t, bash):
     """attribute a violation to the known mechanism: the pinned loop stops at a longer literal that the typed text
     is a prefix of, before it reaches the exact shorter value (or although that literal is not allowed there)"""
@@ -148,7 +198,7 @@ def classify(variant, fam, kind, t, bash):
 def run(ctx, res):
     with build.Lock():
         exe = build.harness()
-    budget = 150 if ctx['tier'] == 'quick' else 1500
+    budget = 110 if ctx['tier'] == 'quick' else 1500
     fams = family(ctx)
     nfam = len(fams)
     fams += random_chains(ctx, 40 if ctx['tier'] == 'quick' else 600)
@@ -165,6 +215,7 @@ def run(ctx, res):
         res.violations.append(report.Violation(
             'tie T3 broken: templates of src/bash.rs changed since Model/BashSem.v was written: %s' % (ts['changed'] + ts['missing'] + ts['extra']),
             dict(kind='tie-T3', status=ts), found_input=False))
+    chain_tables_tie(fams, dumps, res)
     # primitives of the interpreter against real bash
     ntot, bad = t2.primitives_tie(ctx['rng'], 120 if ctx['tier'] == 'quick' else 1500)
     res.extra['primitive_comparisons'] = ntot
@@ -173,7 +224,7 @@ def run(ctx, res):
                                                found_input=False))
     nontrivial = set()
     done_fams = 0
-    chunk = 24
+    chunk = 16
     order = list(range(len(fams)))
     variant_seen = set()
     for lo in range(0, len(order), chunk):
